@@ -2,6 +2,7 @@ package props
 
 import (
 	"fmt"
+	"regexp"
 	"strings"
 	"testing"
 
@@ -103,7 +104,28 @@ func checkC19(c *ProgCase) *Outcome {
 	for _, e := range entries {
 		text := e.V.String()
 		if strings.ContainsAny(text, "\n\r") {
-			continue // rendered on several lines; covered by the no-failure check only
+			// a value whose text has line breaks is shown on consecutive lines of its own, every
+			// piece starting at the value's column
+			pieces := multiLineSplit.Split(text, -1)
+			shown := false
+			for li := 1; li+len(pieces) <= len(lines) && !shown; li++ {
+				all := true
+				for k, pc := range pieces {
+					lr, pr := []rune(lines[li+k]), []rune(pc)
+					if len(pr) == 0 {
+						continue
+					}
+					if e.Col-1+len(pr) > len(lr) || string(lr[e.Col-1:e.Col-1+len(pr)]) != pc {
+						all = false
+						break
+					}
+				}
+				shown = all
+			}
+			if !shown {
+				return bad("the report does not show the multi-line value %q at column %d\n report:\n%s", text, e.Col, report)
+			}
+			continue
 		}
 		tr := []rune(text)
 		found := false
@@ -236,6 +258,8 @@ func checkC19(c *ProgCase) *Outcome {
 	return ok(len(want) >= 3 && (unevaluated || nonASCIIBefore || competing), classes...)
 }
 
+var multiLineSplit = regexp.MustCompile("\r\n|\r|\n")
+
 func hasFunEnv(c *ProgCase) bool {
 	for _, t := range c.Env {
 		if t.HasKind(m.TFun) {
@@ -286,7 +310,7 @@ var c19apiOpt = gen.ProgOpt{Fuel: 4, Partial: true, Sugar: true, Maybe: true, Ti
 var c19api = Register(&Prop[ProgCase]{ID: "C19", Name: "debug-api", Gen: genProgCase(c19apiOpt, nil), Check: checkC19})
 
 func TestC19(t *testing.T) {
-	R.Rule = "accepted single-line programs (ASCII and non-ASCII identifiers and strings, sugar, unevaluated lazy branches, failing operands) over conforming environments; oracle: (a) yae.Debug returns the same value / failure as Eval and the reference, with the environment as a Go struct and again as map[string]interface{} after a call with the same source over a differently typed map of the same Go type; (b) closure.DebugCompile with a debug.Record read through the hook records exactly the reference evaluator's evaluated variable / call / member / subscript terms, in completion order, each with its value and the column of its own token + 1 (identifier start, operator token, '(' of a call, '.', '['); (c) Render does not fail, its first line is the source and every recorded single-line value appears at its column on a later line; (d) a second and third evaluation of the same compiled expression with the same record give the same entries and report; non-trivial = >= 3 recorded terms and an unevaluated branch, a non-ASCII rune before a recorded term, or two values competing for a line"
+	R.Rule = "accepted single-line programs (ASCII and non-ASCII identifiers and strings, sugar, unevaluated lazy branches, failing operands) over conforming environments; oracle: (a) yae.Debug returns the same value / failure as Eval and the reference, with the environment as a Go struct and again as map[string]interface{} after a call with the same source over a differently typed map of the same Go type; (b) closure.DebugCompile with a debug.Record read through the hook records exactly the reference evaluator's evaluated variable / call / member / subscript terms, in completion order, each with its value and the column of its own token + 1 (identifier start, operator token, '(' of a call, '.', '['); (c) Render does not fail, its first line is the source and every recorded value appears at its column on a later line (a value whose text has line breaks on consecutive lines, every piece at that column); (d) a second and third evaluation of the same compiled expression with the same record give the same entries and report; non-trivial = >= 3 recorded terms and an unevaluated branch, a non-ASCII rune before a recorded term, or two values competing for a line"
 	R.Assume = []string{"ref.Eval's completion order; model.Print's token positions; lazy functions that force a thunk twice (lz_pick) are outside the domain (one term, two evaluations)"}
 	reportKnown(t, "C19")
 	runRegress(t, "C19")
